@@ -243,8 +243,9 @@ class F4(PathAnalysis):
                 else:
                     hv = self._stored_in_var(stmt["e"], c)
                     if hv:
-                        # an older result still held by the same variable is overwritten unseen: keep it, holder-less
-                        u = {(x[0], x[1], None) if x[2] == hv else x for x in u}
+                        # an older result still held by the same variable is overwritten unseen: keep it, holder-less and
+                        # under a key of its own (the same call site may be executing again in a loop)
+                        u = {((x[0][0] + "#overwritten", x[0][1], x[0][2]), x[1], None) if x[2] == hv else x for x in u}
                         u.add((k, "held", hv))
         # a W result copied into another call's argument or arithmetic counts as used; assignments keep 'held'
         return (frozenset(u), failed)
@@ -312,6 +313,9 @@ class F4(PathAnalysis):
             self.propagates = True
         for k in failed:
             if cls == "ok" and func.ret != "void":
+                self._add(("swallowed", k), k)
+            elif returned is not None and returned != k and func.ret != "void" and returned[1:] > k[1:]:
+                # the function returns the result of a *later* call (typically a clean-up) instead of its fail value
                 self._add(("swallowed", k), k)
         for (k, how, holder) in unchecked:
             if k == returned or (holder is not None and holder in retvars):
@@ -543,7 +547,7 @@ def rule_F4(ctx):
         per = {}
         for (what, k) in res["findings"]:
             callee, line, col = k
-            per.setdefault((what, callee), []).append(line)
+            per.setdefault((what, callee.split("#")[0]), []).append(line)
         sites = res["sites"]
         for callee, st in sorted(sites.items()):
             n_sites += len(st)
